@@ -7,16 +7,16 @@ From OV Require Import Common.Base C03.Model C03.Proofs C03.GateInv C03.GateMain
 (* what the reject path must not touch before the teardown runs *)
 Definition keep (m m' : mach) : Prop :=
   live (ms m') = live (ms m) /\ cur4 (ms m') = cur4 (ms m) /\ alloc_pool (ms m') = alloc_pool (ms m) /\
-  mfree m' = mfree m.
+  mfree m' = mfree m /\ v6 (ms m') = v6 (ms m) /\ mfree6 m' = mfree6 m.
 Lemma keep_refl : forall m, keep m m.
 Proof. intros m; repeat split. Qed.
 Lemma keep_trans : forall a b c, keep a b -> keep b c -> keep a c.
-Proof. intros a b c (h1 & h2 & h3 & h4) (k1 & k2 & k3 & k4). repeat split; congruence. Qed.
+Proof. intros a b c (h1 & h2 & h3 & h4 & h5 & h6) (k1 & k2 & k3 & k4 & k5 & k6). repeat split; congruence. Qed.
 Lemma keep_emit : forall o m, keep m (emit o m).
-Proof. intros o [s n fr q l]; repeat split. Qed.
+Proof. intros o [s n fr q l f6]; repeat split. Qed.
 Lemma keep_upd : forall f m,
-  (forall s, live (f s) = live s /\ cur4 (f s) = cur4 s /\ alloc_pool (f s) = alloc_pool s) -> keep m (upd f m).
-Proof. intros f [s n fr q l] H. destruct (H s) as (h1 & h2 & h3). repeat split; auto. Qed.
+  (forall s, live (f s) = live s /\ cur4 (f s) = cur4 s /\ alloc_pool (f s) = alloc_pool s /\ v6 (f s) = v6 s) -> keep m (upd f m).
+Proof. intros f [s n fr q l f6] H. destruct (H s) as (h1 & h2 & h3 & h4). repeat split; auto. Qed.
 
 Lemma ncp_fold_silent_keep : forall i n acts m, forallb silent_a acts = true ->
   keep m (fold_left (fun m a => ncp_act i n a m) acts m).
@@ -68,8 +68,10 @@ Proof.
 Qed.
 
 
-(* the pool lease terminate() gives back *)
+(* the leases terminate() gives back: the IPv4 pool address; IPv6 addresses / prefixes (Model.released) *)
 Definition lease (s : sess) : nat := if alloc_pool s && addr_eqb (cur4 s) APool then 1 else 0.
+Definition add6 (p : nat * nat) (s : sess) : nat * nat :=
+  (fst p + released (na (v6 s)), snd p + released (pd (v6 s))).
 
 (* one reject / error answer, ANY state (repaired variant) *)
 Theorem reject_step_clean : forall v st k a i, vrep v = true -> allowed_of a = false ->
@@ -78,32 +80,35 @@ Theorem reject_step_clean : forall v st k a i, vrep v = true -> allowed_of a = f
     nth_error (sl st) i = Some s /\ live s = true /\ pend s = Some k /\
     nth_error (sl (fst (step v st (EvAAA k a)))) i = Some s' /\
     live s' = false /\ ph s' = PTerminate /\
-    free (fst (step v st (EvAAA k a))) = free st + lease s.
+    free (fst (step v st (EvAAA k a))) = free st + lease s /\
+    free6 (fst (step v st (EvAAA k a))) = add6 (free6 st) s.
 Proof.
   intros v st k a i Hv Ea Hf.
   destruct (find_idx_spec _ _ _ _ _ Hf) as (s & _ & Hn & Hp). rewrite Nat.sub_0_r in Hn.
   destruct (aaa_needs_pending v k s Hv Hp) as (Hl & Hpe & _).
-  cbn [step]. rewrite Hf, Ea, Hv. cbn [andb negb]. unfold on_slot. rewrite Hn. cbn [fst sl free].
+  cbn [step]. rewrite Hf. unfold on_slot. rewrite Hn. unfold aaa_apply. rewrite Ea, Hv. cbn [andb negb fst sl free].
   destruct (on_auth_denied_keep v i (match a with AAccIp => true | _ => false end)
-              (mkM s (nreq st) (free st) (queue st) [])) as (k1 & k2 & k3 & k4).
-  set (m1 := on_auth_result v i false (match a with AAccIp => true | _ => false end) (mkM s (nreq st) (free st) (queue st) [])) in *.
+              (mkM s (nreq st) (free st) (queue st) [] (free6 st))) as (k1 & k2 & k3 & k4 & k5 & k6).
+  set (m1 := on_auth_result v i false (match a with AAccIp => true | _ => false end) (mkM s (nreq st) (free st) (queue st) [] (free6 st))) in *.
+  cbn [ms] in k1. rewrite k1, Hl.
   exists s. eexists. split; [reflexivity|]. split; [exact Hl|]. split; [exact Hpe|].
   split; [apply (nth_set_nth_eq _ _ _ _ _ Hn)|].
-  cbn [ms mfree] in k1, k2, k3, k4. unfold lease. rewrite <- k2, <- k3, <- k4.
-  destruct m1 as [s1 n1 f1 q1 o1]. destruct s1. cbn in *.
+  cbn [ms mfree mfree6] in k1, k2, k3, k4, k5, k6. unfold lease, add6. rewrite <- k2, <- k3, <- k4, <- k5, <- k6.
+  destruct m1 as [s1 n1 f1 q1 o1 g1]. destruct s1. cbn [ms mfree mfree6 mn mq mo Model.v6 Model.alloc_pool Model.cur4 Model.ph Model.live
+    terminate upd emit set_live set_ph set_lcp set_ipcp set_ip6cp fst snd free free6 sl].
   destruct (in_net ph); cbn; repeat split; destruct alloc_pool, cur4; cbn; lia.
 Qed.
 
 (* a session that is out of the indexes stays out until the subscriber's next PADR *)
 Lemma ncp_act_live : forall i n a m, live (ms (ncp_act i n a m)) = live (ms m).
 Proof.
-  intros i n a [s nn fr q o]. destruct a, n; cbn; try reflexivity; destruct s; cbn;
+  intros i n a [s nn fr q o f6]. destruct a, n; cbn; try reflexivity; destruct s; cbn;
     unfold check_open; cbn; repeat match goal with |- context [match ?x with _ => _ end] => destruct x; cbn end; reflexivity.
 Qed.
 Lemma ncp_apply_live : forall i n g m, live (ms (ncp_apply i n g m)) = live (ms m).
 Proof.
   intros i n g m. unfold ncp_apply. destruct (g (get_ncp n (ms m))) as [f' acts].
-  assert (E : live (ms (upd (set_ncp n f') m)) = live (ms m)) by (destruct m as [s ? ? ? ?]; destruct n, s; reflexivity).
+  assert (E : live (ms (upd (set_ncp n f') m)) = live (ms m)) by (destruct m as [s ? ? ? ? ?]; destruct n, s; reflexivity).
   rewrite <- E. generalize (upd (set_ncp n f') m). clear. induction acts as [|a acts IH]; intros m; cbn [fold_left]; auto.
   rewrite IH. apply ncp_act_live.
 Qed.
@@ -114,21 +119,69 @@ Proof.
   - apply ncp_apply_live. - apply ncp_apply_live.
   - destruct (ph (ms m)); auto.
     destruct (10 <=? S (chap_retry (ms m))).
-    + rewrite (proj1 (lcp_apply_keep v i fsm_close _)). destruct m as [s ? ? ? ?]; destruct s; reflexivity.
-    + destruct m as [s ? ? ? ?]; destruct s; reflexivity.
+    + rewrite (proj1 (lcp_apply_keep v i fsm_close _)). destruct m as [s ? ? ? ? ?]; destruct s; reflexivity.
+    + destruct m as [s ? ? ? ? ?]; destruct s; reflexivity.
+Qed.
+
+(* onAuthResult never changes [live] (only the teardown that may follow does, to false) *)
+Lemma live_upd : forall f m, (forall s, live (f s) = live s) -> live (ms (upd f m)) = live (ms m).
+Proof. intros f [s ? ? ? ? ?] H. apply H. Qed.
+Lemma live_on_fam : forall pdf g s, live (on_fam pdf g s) = live s.
+Proof. intros pdf g []; reflexivity. Qed.
+Lemma rereserve6_live : forall pdf m, live (ms (rereserve6 pdf m)) = live (ms m).
+Proof. intros pdf m. unfold rereserve6. destruct (pool_of pdf (mfree6 m)); reflexivity. Qed.
+Lemma start_ncp_live : forall v i m, live (ms (start_ncp v i m)) = live (ms m).
+Proof.
+  intros v i m. unfold start_ncp.
+  assert (A : live (ms (start_v4 m)) = live (ms m)).
+  { unfold start_v4. destruct m as [s n fr q l f6]. cbn [ms mfree mn mq mo mfree6].
+    destruct (cur4 s); try reflexivity.
+    - destruct fr; [reflexivity|]. destruct s; reflexivity.
+    - destruct (live s) eqn:E; cbn [ms]; [exact E|]. destruct fr; cbn; exact E. }
+  assert (B : forall m, live (ms (start_na m)) = live (ms m)).
+  { intros m0. unfold start_na. destruct (xs (na (v6 (ms m0)))).
+    - destruct (live (ms m0)) eqn:E; auto. rewrite rereserve6_live. auto.
+    - unfold alloc6. destruct (pool_of false (mfree6 m0)); [reflexivity|].
+      destruct m0 as [s0 n0 fr0 q0 l0 f60]. cbn. destruct s0; reflexivity. }
+  assert (C : forall m, live (ms (start_pd m)) = live (ms m)).
+  { intros m0. unfold start_pd. destruct (xs (pd (v6 (ms m0)))); auto.
+    destruct (live (ms m0)) eqn:E; auto. rewrite rereserve6_live. auto. }
+  assert (D : forall m, live (ms (start_ncps v i m)) = live (ms m)).
+  { intros m0. unfold start_ncps. rewrite !ncp_apply_live.
+    destruct (cur4 (ms m0)); auto; rewrite !ncp_apply_live; destruct m0 as [s ? ? ? ? ?], s; reflexivity. }
+  rewrite D, C, B, A. reflexivity.
+Qed.
+Lemma on_auth_allowed_live : forall v i static m, live (ms (on_auth_result v i true static m)) = live (ms m).
+Proof.
+  intros v i static m. unfold on_auth_result.
+  rewrite live_upd by (intros []; reflexivity). rewrite start_ncp_live.
+  rewrite live_upd by (intros []; reflexivity).
+  set (m1 := new_ctx _).
+  assert (E : live (ms m1) = live (ms m)).
+  { unfold m1, new_ctx. rewrite !live_upd; auto; intros s; try apply live_on_fam; destruct s; reflexivity. }
+  destruct (pty (ms m1)); cbn [emit ms]; exact E.
+Qed.
+Lemma aaa_apply_dead : forall v i a m, live (ms m) = false -> live (ms (aaa_apply v i a m)) = false.
+Proof.
+  intros v i a m Hl. unfold aaa_apply.
+  assert (E : live (ms (on_auth_result v i (allowed_of a) match a with AAccIp => true | _ => false end m)) = false).
+  { destruct (allowed_of a).
+    - rewrite on_auth_allowed_live. exact Hl.
+    - rewrite (proj1 (on_auth_denied_keep v i _ m)). exact Hl. }
+  rewrite E, andb_false_r. exact E.
 Qed.
 
 Lemma dead_persists : forall v st e i s, nth_error (sl st) i = Some s -> live s = false -> e <> EvOpen i ->
   exists s', nth_error (sl (fst (step v st e))) i = Some s' /\ live s' = false.
 Proof.
   intros v st e i s Hn Hl He.
-  assert (OS : forall j h, (j = i -> live (ms (h (mkM s (nreq st) (free st) (queue st) []))) = false) ->
+  assert (OS : forall j h, (j = i -> live (ms (h (mkM s (nreq st) (free st) (queue st) [] (free6 st)))) = false) ->
                exists s', nth_error (sl (fst (on_slot st j h))) i = Some s' /\ live s' = false).
   { intros j h Hh. unfold on_slot. destruct (Nat.eq_dec j i) as [E|E].
     - subst j. rewrite Hn. cbn [fst sl]. eexists. split; [apply (nth_set_nth_eq _ _ _ _ _ Hn)|]. auto.
     - destruct (nth_error (sl st) j) as [sj|] eqn:Ej; cbn [fst sl]; exists s; split; auto.
       rewrite nth_set_nth_neq; auto. }
-  destruct e as [j|j f|k a|j t|j|j| ]; cbn [step].
+  destruct e as [j|j f|k a|j t|j|j| |jh k a]; cbn [step].
   - apply OS. intros E. subst j. congruence.
   - apply OS. intros E. cbn [ms]. rewrite Hl. auto.
   - destruct (find_idx (pend_matches v k) (sl st) 0) as [j|] eqn:Ef; [|exists s; auto].
@@ -140,6 +193,9 @@ Proof.
   - apply OS. intros E. cbn [ms]. rewrite Hl. auto.
   - destruct (queue st) as [|[j g] q]; [exists s; auto|].
     destruct (nth_error (sl st) j) as [sj|]; [destruct (Nat.eqb (gen sj) g)|]; cbn [fst sl]; exists s; auto.
+  - destruct (nth_error (sl st) jh) as [sj|]; [|exists s; auto].
+    destruct (held_matches v k sj); [|exists s; auto].
+    apply OS. intros E. apply aaa_apply_dead. exact Hl.
 Qed.
 
 Lemma dead_run : forall v evs st i s, nth_error (sl st) i = Some s -> live s = false ->
@@ -152,18 +208,18 @@ Proof.
 Qed.
 
 (* C03_reject_clean over histories *)
-Theorem reject_clean_run : forall v pool evs1 k a evs2 i, vrep v = true -> allowed_of a = false ->
-  find_idx (pend_matches v k) (sl (fst (run v (init pool) evs1))) 0 = Some i ->
+Theorem reject_clean_run : forall v pool p6 ppd evs1 k a evs2 i, vrep v = true -> allowed_of a = false ->
+  find_idx (pend_matches v k) (sl (fst (run v (init3 pool p6 ppd) evs1))) 0 = Some i ->
   Forall (fun e => e <> EvOpen i) evs2 ->
-  let st1 := fst (run v (init pool) evs1) in
+  let st1 := fst (run v (init3 pool p6 ppd) evs1) in
   let st2 := fst (step v st1 (EvAAA k a)) in
   exists s s3,
     nth_error (sl st1) i = Some s /\ live s = true /\ pend s = Some k /\
-    free st2 = free st1 + lease s /\
+    free st2 = free st1 + lease s /\ free6 st2 = add6 (free6 st1) s /\
     nth_error (sl (fst (run v st2 evs2))) i = Some s3 /\ live s3 = false.
 Proof.
-  intros v pool evs1 k a evs2 i Hv Ea Hf Hall st1 st2.
-  destruct (reject_step_clean v st1 k a i Hv Ea Hf) as (s & s' & h1 & h2 & h3 & h4 & h5 & h6 & h7).
+  intros v pool p6 ppd evs1 k a evs2 i Hv Ea Hf Hall st1 st2.
+  destruct (reject_step_clean v st1 k a i Hv Ea Hf) as (s & s' & h1 & h2 & h3 & h4 & h5 & h6 & h7 & h8).
   destruct (dead_run v evs2 st2 i s' h4 h5 Hall) as (s3 & g1 & g2).
   exists s, s3. repeat split; auto.
 Qed.
@@ -177,10 +233,10 @@ Theorem link_end_teardown_step : forall v st i f s, vtd v = true ->
 Proof.
   intros v st i f s Hv Hn Hl Hp Hin. cbn [step] in *. unfold on_slot in *. rewrite Hn in *. cbn [ms fst snd sl] in *.
   rewrite Hl, Hv, Hp in *. cbn [andb] in *.
-  set (m1 := handle_frame v i f (mkM s (nreq st) (free st) (queue st) [])) in *.
+  set (m1 := handle_frame v i f (mkM s (nreq st) (free st) (queue st) [] (free6 st))) in *.
   destruct (existsb is_lcp_down (mo m1)) eqn:E.
   - eexists. split; [apply (nth_set_nth_eq _ _ _ _ _ Hn)|].
-    destruct m1 as [s1 n1 f1 q1 o1]. destruct s1. cbn. destruct (in_net ph); cbn; auto.
+    destruct m1 as [s1 n1 f1 q1 o1 g1]. destruct s1. cbn. destruct (in_net ph); cbn; auto.
   - exfalso. unfold tag in Hin. apply in_map_iff in Hin. destruct Hin as (o & Ho & Io). inversion Ho; subst o.
     rewrite <- in_rev in Io. assert (K : existsb is_lcp_down (mo m1) = true) by (apply existsb_exists; exists GLcpDown; auto).
     congruence.
